@@ -936,23 +936,21 @@ class PseudoNetCDFFile(PseudoNetCDFSelfReg, object):
             outf = self.copy(variables=True)
         oldorder = tuple(oldorder)
         neworder = tuple(neworder)
-        for vk, vv in self.variables.items():
-            varneworder = [dk for dk in neworder if dk in vv.dimensions]
-            varorder = [dk for dk in vv.dimensions]
-            if len(varneworder) > 0:
-                newvals = vv[:].copy()
-                for newdi, newdk in enumerate(varneworder):
-                    axisidx = varorder.index(newdk)
-                    if axisidx == newdi:
-                        continue
-                    newvals = np.rollaxis(newvals, axis=axisidx, start=newdi)
-                    varorder.pop(axisidx)
-                    varorder.insert(newdi, newdk)
-                assert (varorder == varneworder)
-                newvals.dimensions = tuple(varorder)
-                outf.variables[vk] = newvals
-            else:
-                pass
+        for vk, vv in list(self.variables.items()):
+            varorder = list(vv.dimensions)
+            varneworder = [dk for dk in neworder if dk in varorder]
+            # listed dimensions take the listed order within the positions
+            # they occupy; dimensions that are not listed stay in place
+            slots = [di for di, dk in enumerate(varorder) if dk in neworder]
+            newdims = list(varorder)
+            for di, dk in zip(slots, varneworder):
+                newdims[di] = dk
+            if newdims != varorder:
+                axes = [varorder.index(dk) for dk in newdims]
+                newvals = np.transpose(vv[...], axes)
+                newvar = outf.copyVariable(
+                    vv, key=vk, dimensions=tuple(newdims), withdata=False)
+                newvar[...] = newvals
 
         return outf
 
